@@ -41,6 +41,7 @@ func concMain(args []string) {
 	type job struct {
 		id, rule string
 		objx     *sexp
+		noRender bool // the object holds a value that changes itself when it is printed (the library's *NestedError): printing it twice at once is the caller's race
 	}
 	var jobs []job
 	sc := bufio.NewScanner(f)
@@ -54,7 +55,7 @@ func concMain(args []string) {
 		if !ok {
 			continue
 		}
-		jobs = append(jobs, job{x.list[1].atom, rule, x.list[3]})
+		jobs = append(jobs, job{x.list[1].atom, rule, x.list[3], strings.Contains(sc.Text(), "(o 48)")})
 	}
 	results := make([]string, len(jobs))
 	var start, done sync.WaitGroup
@@ -63,6 +64,31 @@ func concMain(args []string) {
 		done.Add(1)
 		go func(w int) {
 			defer done.Done()
+			// the errors a goroutine is handed are its own values: it may pass them to a logger of its own that renders them while
+			// the goroutine goes on using its evaluator
+			logCh := make(chan error, 64)
+			var logDone sync.WaitGroup
+			logDone.Add(1)
+			go func() {
+				defer logDone.Done()
+				for e := range logCh {
+					func() {
+						defer func() { recover() }()
+						_ = e.Error()
+					}()
+				}
+			}()
+			defer func() { close(logCh); logDone.Wait() }()
+			logErr := func(e error) {
+				if e != nil {
+					select {
+					case logCh <- e:
+					default:
+					}
+				}
+			}
+			var prevDbg error
+			ndbg := 0
 			start.Wait()
 			for i := w; i < len(jobs); i += g {
 				j := jobs[i]
@@ -83,6 +109,22 @@ func concMain(args []string) {
 						}()
 						v, perr = ev.Process(obj)
 					}()
+					logErr(perr)
+					if de := ev.LastDebugErr(); de != nil && !j.noRender {
+						// the diagnostic of the PREVIOUS call goes to the logger, the one of this call is rendered here: two calls hand
+						// out two values, so the two renderings share nothing
+						logErr(prevDbg)
+						prevDbg = nil
+						ndbg++
+						if ndbg%2 == 0 {
+							func() {
+								defer func() { recover() }()
+								_ = de.Error()
+							}()
+						} else {
+							prevDbg = de
+						}
+					}
 					return "verdict=" + b01(v) + " err=" + errClass(perr) + " dbg=" + dbgClass(ev.LastDebugErr())
 				}
 				ev, nerr := parser.NewEvaluator(j.rule)
@@ -95,6 +137,12 @@ func concMain(args []string) {
 				for k := 0; k < extra; k++ {
 					if one(ev) != first {
 						stable = false
+					}
+					if k%4 == 3 && len(j.rule) < 2000 { // not for the deeply nested rules: parsing them again and again under the race detector takes minutes
+						v2, e2 := rules.Evaluate(j.rule, obj)
+						if !strings.HasPrefix(first, "verdict="+b01(v2)+" err="+errClass(e2)) {
+							stable = false
+						}
 					}
 				}
 				for r := 1; r < rounds; r++ {
